@@ -26,7 +26,9 @@ domain, range; linear operators are their own derivative.  Applied to the random
 with transcendental ufunc leaves) and to a zoo with every operator class that defines
 `derivative` (found by introspection, built from a constructor table), the functionals (every
 module-level Functional subclass must be instantiated or listed as having no gradient) and the
-ufunc functionals `odl.ufunc_ops.<name>()` on RealNumbers() for every ufunc.  NotImplementedError
+ufunc functionals `odl.ufunc_ops.<name>()` on RealNumbers() for every ufunc, and to random
+FUNCTIONAL expressions (sum, product, quotient with a non-constant divisor away from 1,
+composition with operators / ufunc functionals, scalar and vector multiples).  NotImplementedError
 from `derivative` counts as "no derivative provided" only where the zoo entry says so.
 """
 import math
@@ -996,6 +998,155 @@ def mixed_stream(ctx, n_cases):
 
 
 # ---------------------------------------------------------------------------
+# random FUNCTIONAL expressions (oracle only): sums, products, quotients, compositions and scalar
+# multiples with NON-CONSTANT parts, at points where the parts are far from 0 and 1
+
+FSPACES = ['rn3', 'discr4']
+
+
+def fspace(name):
+    import odl
+    if name not in _SPACES:
+        _SPACES[name] = odl.rn(3) if name == 'rn3' else odl.uniform_discr(0, 1, 4)
+    return _SPACES[name]
+
+
+def _rv(rng, n, lo=0.3, hi=2.0):
+    return [round(rng.uniform(lo, hi) * rng.choice([-1, 1]), 3) for _ in range(n)]
+
+
+def gen_fun(rng, sp, depth):
+    """Spec (JSON-able list) of a random smooth functional on fspace(sp)."""
+    n = fspace(sp).size
+    if depth <= 0 or rng.random() < 0.2:
+        k = rng.choice(['normsq', 'norm', 'normsq_t', 'norm_t', 'quad'])
+        if k in ('normsq_t', 'norm_t'):
+            return [k, _rv(rng, n, 2.5, 4.0)]
+        if k == 'quad':
+            return [k, _rv(rng, n), round(rng.uniform(-2, 2), 3)]
+        return [k]
+    k = rng.choice(['sum', 'scalarsum', 'lscal', 'rscal', 'prod', 'prod', 'quot', 'quot', 'quot',
+                    'opcomp', 'rvec', 'ufunc'])
+    d1 = depth - 1
+    if k in ('sum', 'prod'):
+        return [k, gen_fun(rng, sp, d1), gen_fun(rng, sp, d1)]
+    if k == 'quot':
+        # divisor: non-constant, positive and away from 1: (nonnegative functional) + c
+        div = ['scalarsum', [rng.choice(['normsq', 'norm'])] if rng.random() < 0.6
+               else [rng.choice(['normsq_t', 'norm_t']), _rv(rng, n, 2.5, 4.0)],
+               round(rng.uniform(1.5, 4.0), 3)]
+        num = gen_fun(rng, sp, d1) if rng.random() < 0.7 else ['const', round(rng.uniform(1, 3), 3)]
+        return [k, num, div]
+    if k == 'scalarsum':
+        return [k, gen_fun(rng, sp, d1), round(rng.uniform(-3, 3), 3)]
+    if k in ('lscal', 'rscal'):
+        return [k, gen_fun(rng, sp, d1), rng.choice([-1.5, 0.5, 2.0, 2.5])]
+    if k == 'opcomp':
+        return [k, gen_fun(rng, sp, d1), rng.choice(['mul', 'scal']), _rv(rng, n, 0.5, 1.5)]
+    if k == 'rvec':
+        return [k, gen_fun(rng, sp, d1), _rv(rng, n, 0.5, 1.5)]
+    return ['ufunc', rng.choice(['sin', 'cos', 'exp', 'square']), ['lscal', gen_fun(rng, sp, d1), 0.1]]
+
+
+def build_fun(spec, sp):
+    import odl
+    import odl.ufunc_ops as uo
+    S = odl.solvers
+    X = fspace(sp)
+    k = spec[0]
+    if k == 'normsq':
+        return S.L2NormSquared(X)
+    if k == 'norm':
+        return S.L2Norm(X)
+    if k == 'normsq_t':
+        return S.L2NormSquared(X).translated(X.element(spec[1]))
+    if k == 'norm_t':
+        return S.L2Norm(X).translated(X.element(spec[1]))
+    if k == 'quad':
+        return S.QuadraticForm(vector=X.element(spec[1]), constant=spec[2])
+    if k == 'const':
+        return S.ConstantFunctional(X, spec[1])
+    if k == 'sum':
+        return build_fun(spec[1], sp) + build_fun(spec[2], sp)
+    if k == 'prod':
+        return S.FunctionalProduct(build_fun(spec[1], sp), build_fun(spec[2], sp))
+    if k == 'quot':
+        return S.FunctionalQuotient(build_fun(spec[1], sp), build_fun(spec[2], sp))
+    if k == 'scalarsum':
+        return build_fun(spec[1], sp) + spec[2]
+    if k == 'lscal':
+        return spec[2] * build_fun(spec[1], sp)
+    if k == 'rscal':
+        return build_fun(spec[1], sp) * spec[2]
+    if k == 'opcomp':
+        A = odl.MultiplyOperator(X.element(spec[3])) if spec[2] == 'mul' else odl.ScalingOperator(X, spec[3][0])
+        return build_fun(spec[1], sp) * A
+    if k == 'rvec':
+        return build_fun(spec[1], sp) * X.element(spec[2])
+    if k == 'ufunc':
+        return getattr(uo, spec[1])() * build_fun(spec[2], sp)
+    raise KeyError(k)
+
+
+def fun_kinds(spec, acc=None):
+    acc = [] if acc is None else acc
+    acc.append(spec[0] if spec[0] != 'ufunc' else 'ufunc:' + spec[1])
+    for t in spec[1:]:
+        if isinstance(t, list) and t and isinstance(t[0], str):
+            fun_kinds(t, acc)
+    return acc
+
+
+def run_fun_case(c):
+    """problems (None = skipped as ill-conditioned), nontrivial, class name of the functional."""
+    sp = c['space']
+    try:
+        f = build_fun(c['spec'], sp)
+    except Exception as e:  # noqa
+        return ['constructing the functional raised {}: {}'.format(type(e).__name__, str(e)[:200])], False, '?'
+    X = fspace(sp)
+    x, d = X.element(c['x']), X.element(c['d'])
+    try:
+        with np.errstate(all='ignore'):
+            v = flat(f(x))
+            c12 = (flat(f(x + 2.0 ** -12 * d)) - flat(f(x - 2.0 ** -12 * d))) * 2.0 ** 11
+            c14 = (flat(f(x + 2.0 ** -14 * d)) - flat(f(x - 2.0 ** -14 * d))) * 2.0 ** 13
+        if not (np.all(np.isfinite(v)) and np.all(np.isfinite(c12)) and np.all(np.isfinite(c14))) \
+                or np.max(np.abs(v)) > 1e6:
+            return None, False, type(f).__name__
+        if np.max(np.abs(c12 - c14)) > 1e-5 * max(np.max(np.abs(c14)), 1e-3 * max(np.max(np.abs(v)), 1.0)):
+            return None, False, type(f).__name__
+    except Exception as e:  # noqa
+        return ['f(x) raised {}: {}'.format(type(e).__name__, str(e)[:200])], False, type(f).__name__
+    with np.errstate(all='ignore'):
+        problems, D, Dd = oracle_on(f, x, d, exact_linear=False, tol=1e-7)
+    nontrivial = Dd is not None and bool(np.any(flat(Dd) != 0))
+    ZOO_CLASSES_SEEN.add(type(f).__name__)
+    return problems, nontrivial, type(f).__name__
+
+
+def functional_stream(ctx, n_cases):
+    rng = ctx.rng
+    done = tries = 0
+    while done < n_cases and tries < 20 * n_cases:
+        tries += 1
+        sp = rng.choice(FSPACES)
+        spec = gen_fun(rng, sp, rng.choice([1, 2, 2, 3]))
+        n = fspace(sp).size
+        c = {'kind': 'functional', 'space': sp, 'spec': spec, 'x': _rv(rng, n), 'd': _rv(rng, n, 0.2, 1.0)}
+        problems, nontrivial, cls = run_fun_case(c)
+        if problems is None:
+            continue
+        done += 1
+        ks = fun_kinds(spec)
+        ctx.case(('functional', ks[0], tuple(sorted(set(ks)))) if nontrivial else None)
+        ctx.hit('oracle/functional-tree/' + ks[0])
+        if problems:
+            ctx.violation('functional-tree top={} ({}) parts={} space={}'.format(
+                ks[0], cls, '+'.join(sorted(set(ks))), sp), '; '.join(problems)[:700], c)
+
+
+# ---------------------------------------------------------------------------
 # zoo: every operator class implementing `derivative`
 
 EXEMPT = {'LinDeformFixedTempl': 'continuum derivative by design (property statement)',
@@ -1272,7 +1423,9 @@ def zoo(ctx):
         ('L2Norm', lambda sp: S.L2Norm(sp), fgen),
         ('L1Norm', lambda sp: S.L1Norm(sp), fgen),
         ('LpNorm(2)', lambda sp: S.LpNorm(sp, 2), fgen),
-        ('Huber(0.5)', lambda sp: S.Huber(sp, 0.5), fgen),
+        # Huber is only C^1 at |x_i| = gamma: base points stay away from the kink (both regimes)
+        ('Huber(0.05) linear regime', lambda sp: S.Huber(sp, 0.05), fgen),
+        ('Huber(5) quadratic regime', lambda sp: S.Huber(sp, 5.0), fgen),
         ('KullbackLeibler', lambda sp: S.KullbackLeibler(sp, prior=sp.element(_pos(rng, sp.size))), fpos),
         ('KullbackLeiblerCrossEntropy',
          lambda sp: S.KullbackLeiblerCrossEntropy(sp, prior=sp.element(_pos(rng, sp.size))), fpos),
@@ -1284,13 +1437,20 @@ def zoo(ctx):
         ('FunctionalQuadraticPerturb', lambda sp: S.FunctionalQuadraticPerturb(
             S.L2Norm(sp), quadratic_coeff=1.5, linear_term=sp.element(_gen(rng, sp.size))), fgen),
         ('Functional*scalar', lambda sp: S.L2Norm(sp) * 2.5, fgen),
-        ('scalar*Functional', lambda sp: 2.5 * S.Huber(sp, 0.7), fgen),
+        ('scalar*Functional', lambda sp: 2.5 * S.Huber(sp, 5.0), fgen),
         ('Functional*Operator', lambda sp: S.L2NormSquared(sp) * odl.MultiplyOperator(sp.element(_gen(rng, sp.size))), fgen),
         ('Functional+Functional', lambda sp: S.L2NormSquared(sp) + S.L2Norm(sp), fgen),
         ('Functional*vector', lambda sp: S.L2Norm(sp) * sp.element(_gen(rng, sp.size)), fgen),
         ('FunctionalProduct', lambda sp: S.FunctionalProduct(S.L2NormSquared(sp), S.L2Norm(sp)), fgen),
         ('FunctionalQuotient', lambda sp: S.FunctionalQuotient(S.L2NormSquared(sp), S.L2Norm(sp) + 1.5), fgen),
         ('FunctionalScalarSum', lambda sp: S.L2Norm(sp) + 2.5, fgen),
+        ('FunctionalQuotient const/(normsq+3)', lambda sp: S.FunctionalQuotient(
+            S.ConstantFunctional(sp, 2.5), S.L2NormSquared(sp) + 3.0), fgen),
+        ('FunctionalQuotient normsq/||.-t||', lambda sp: S.FunctionalQuotient(
+            S.L2NormSquared(sp), S.L2Norm(sp).translated(sp.element(_gen(rng, sp.size, 3.0, 4.5)))), fgen),
+        ('FunctionalProduct normsq*||.-t||', lambda sp: S.FunctionalProduct(
+            S.L2NormSquared(sp), S.L2Norm(sp).translated(sp.element(_gen(rng, sp.size, 3.0, 4.5)))), fgen),
+        ('FunctionalComp exp o (0.1*normsq)', lambda sp: uo.exp() * (0.1 * S.L2NormSquared(sp)), fgen),
         ('KullbackLeiblerConvexConj', lambda sp: S.KullbackLeibler(sp, prior=sp.element(_pos(rng, sp.size))).convex_conj,
          lambda sp: sp.element([rng.uniform(-1.0, 0.6) for _ in range(sp.size)])),
         ('KullbackLeiblerCrossEntropyConvexConj',
@@ -1533,6 +1693,7 @@ def run(ctx):
     malformed_stream(ctx, 150 if quick else 1500)
     exact_stream(ctx, 1500 if quick else 20000)
     mixed_stream(ctx, 300 if quick else 4000)
+    functional_stream(ctx, 200 if quick else 3000)
     zoo_stream(ctx, 3 if quick else 25)
     if not quick:
         unhit = [b for b in EXPECTED_BRANCHES if b not in ctx.branches]
@@ -1569,6 +1730,8 @@ def search(ctx, broken):
         if not ctx.violations:
             mixed_stream(ctx, 600)
         if not ctx.violations:
+            functional_stream(ctx, 1500)
+        if not ctx.violations:
             zoo_stream(ctx, 10)
     finally:
         ctx.tier = saved
@@ -1583,6 +1746,9 @@ def replay(ctx, case):
             _, _, problems, _ = run_tree_case(c)
         else:
             problems, _ = run_mixed_case(c)
+        return '; '.join(problems) if problems else None
+    if kind == 'functional':
+        problems, _, _ = run_fun_case(case)
         return '; '.join(problems) if problems else None
     if kind == 'zoo':
         for entry in zoo(ctx):
